@@ -914,6 +914,11 @@ pub async fn run_async(plan: &PlanA, opts: &ExecOpts) -> RunResult {
                                 format!("client {} holds {:?} (unexpired, in pool) but its {} got no reply", hex(&s.identity), held.iter().map(|a| Ipv4Addr::from(*a)).collect::<Vec<_>>(), if mtype == Some(1) { "DISCOVER" } else { "REQUEST" }),
                                 s.step,
                             ),
+                            Some(y) if y == u32::from(lan.server_ip) => {
+                                /* the server's own address, leased from a policy pool: that is
+                                 * C02's known finding, not a second violation here */
+                                res.probe("C09.server_own_address_reissued");
+                            }
                             Some(y) => {
                                 if !held.contains(&y) {
                                     res.violate(
